@@ -3,7 +3,7 @@
    requesting context only and are cached under the factory's free types (C04). *)
 From Coq Require Import String.
 From Coq Require Import List Bool Arith Lia.
-From Asphalt Require Import Ctx.ResModel Ctx.ResProofs.
+From Asphalt Require Import Ctx.ResModel Ctx.ResProofs Gen.Gen_lookup.
 Import ListNotations.
 Open Scope string_scope.
 Open Scope list_scope.
@@ -123,7 +123,7 @@ Qed.
 Lemma store_generated_inv x f v :
   ctx_inv x -> (exists g n, v = Gen (cid x) g n) -> ctx_inv (store_generated x f v).
 Proof.
-  intros I Hv. unfold store_generated.
+  intros I Hv. unfold_sg.
   destruct (free_types x f) as [|t0 tr] eqn:Ef; auto. rewrite <- Ef.
   assert (Hfree : forall t, In t (free_types x f) -> find (t, fname f) (res x) = None).
   { intros t Ht. unfold free_types in Ht. apply filter_In in Ht. destruct Ht as [_ Ht].
@@ -242,7 +242,7 @@ Proof.
     - eapply inv_irrelevant_fields; eauto.
     - rewrite C. eauto. }
   assert (PSG : forall y f v, pending_ok y -> pending_ok (store_generated y f v)).
-  { intros y f v Py. unfold store_generated. destruct (free_types y f); auto. }
+  { intros y f v Py. unfold_sg. destruct (free_types y f); auto. }
   unfold local_step. destruct a; simpl; crush_step;
   (split;
    [ first [ exact I
@@ -303,7 +303,7 @@ Qed.
 Lemma cid_local_step a x : cid (fst (local_step a x)) = cid x.
 Proof.
   assert (SG : forall y f v, cid (store_generated y f v) = cid y)
-    by (intros; unfold store_generated; destruct (free_types y f); reflexivity).
+    by (intros; unfold_sg; destruct (free_types y f); reflexivity).
   unfold local_step. destruct a; simpl; crush_step; rewrite ?SG; auto.
 Qed.
 
@@ -365,7 +365,7 @@ Lemma store_generated_binds x f v t :
   In t (free_types x f) ->
   exists c, find (t, fname f) (res (store_generated x f v)) = Some c /\ cvalue c = v /\ cgen c = true.
 Proof.
-  intro Hin. unfold store_generated. destruct (free_types x f) as [|t0 tr] eqn:Ef; [destruct Hin|].
+  intro Hin. unfold_sg. destruct (free_types x f) as [|t0 tr] eqn:Ef; [destruct Hin|].
   rewrite <- Ef in *. cbn [res set_evlog set_res]. rewrite find_ins_all_in by auto. eexists; split; eauto.
 Qed.
 
